@@ -123,6 +123,9 @@ def holds(test, F):
         return RAISE
     if text in F.truths:
         return F.truths[text]
+    if isinstance(test, ast.Compare) and len(test.ops) == 1 and isinstance(test.ops[0], (ast.Lt, ast.LtE, ast.Gt, ast.GtE)) \
+            and any(isinstance(x, ast.Name) and x.id in F.none for x in (test.left, test.comparators[0])):
+        return RAISE        # None has no order: TypeError on Python 3
     if isinstance(test, ast.Constant):
         return bool(test.value)
     if isinstance(test, ast.Name):
